@@ -147,6 +147,8 @@ func runC31(c *an.Ctx) {
 		c.Check(verified, "verified|blockCommitMsg.EndorsersSig", "endorsements claimed inside a commit message count towards the quorum only if their signatures are verified: some reader of EndorsersSig passes its values to a signature verification", "-",
 			fmt.Sprintf("readers of the field: %v; none of them verifies the signatures — blockCommitMsg.Verify checks only the committer's own signature, and getCommitConsensus counts every claimed endorser index", readers))
 	}
+	// 5. one list entry per peer and proposer in the endorsement table
+	endorseSigsDistinctRule(c)
 	// 4. one committer, one commit
 	if nb := mustFunc(c, vb+".(*BlockPool).newBlockCommitment"); nb != nil {
 		dup := &an.Guard{Name: "same committer", FailValue: an.ATrue, MatchValue: func(v ssa.Value) bool {
